@@ -294,6 +294,7 @@ type e2p struct {
 	SyncFaults []string `json:"sync_faults,omitempty"`
 	Foreign    bool     `json:"foreign,omitempty"`
 	Tolerant   bool     `json:"tolerant,omitempty"`
+	Patches    []string `json:"patches,omitempty"`
 }
 
 const assumeE2 = "whole system in one testing/synctest bubble per execution: real OrdaService, real server/mongodb over mongo-driver 1.10.1 speaking the wire protocol to the in-memory mongofake, real Notifier over an MQTT stand-in, real SDK clients over an in-process RPC stub (protobuf round trip per message); virtual time; background goroutines drained after every action"
@@ -489,12 +490,17 @@ func init() {
 			Assume: []string{assumeE1, assumeE2, assumeInstr, "targets contain no nulls"}}
 		if tier == "quick" {
 			p.BudgetS = 480
-			p.Runs = []Run{{Name: "pairs-small", Check: "C19", Params: wp{Type: "doc", N: 2, Alpha: "small"}, Depth: 2}}
+			p.Runs = []Run{{Name: "pairs-small", Check: "C19", Params: wp{Type: "doc", N: 2, Alpha: "small"}, Depth: 2},
+				e2run("rest-doc-2c-d4", e2p{Clients: 2, Type: "doc", Modes: []string{"soc"}, Patches: restTargets, Oracles: []string{"log", "converge", "snapshots"}}, 4, 0),
+				schedRun("rest-patch-vs-push-b2", 2, restRace, 0)}
 		} else {
 			p.BudgetS = 3300
 			p.Runs = []Run{
 				{Name: "pairs-large", Check: "C19", Params: wp{Type: "doc", N: 2, Alpha: "large"}, Depth: 2},
 				{Name: "chains-small", Check: "C19", Params: wp{Type: "doc", N: 2, Alpha: "small"}, Depth: 3, MaxState: 400000},
+				e2run("rest-doc-2c-d5", e2p{Clients: 2, Type: "doc", Modes: []string{"soc"}, Patches: restTargets, Oracles: []string{"log", "converge", "snapshots"}}, 5, 300000),
+				e2run("rest-doc-joined-d5", e2p{Clients: 2, Type: "doc", Prefix: "joined", Patches: restTargets, Oracles: []string{"log", "converge", "snapshots"}}, 5, 300000),
+				schedRun("rest-patch-vs-push-b3", 3, restRace, 0),
 			}
 		}
 		return p
@@ -716,3 +722,12 @@ func init() {
 		return p
 	}
 }
+
+var restTargets = []string{`{"a":"s"}`, `{"a":{"x":1},"b":[1,2]}`, `{"b":[2]}`}
+
+var restRace = e2sched{E2: e2p{Clients: 2, Type: "doc", Tolerant: true},
+	Conc: []pact{
+		{Op: "seq", R: 0, Sub: []pact{{Op: "opensync", R: 0, T: "k1", K: "soc"}, {Op: "dput", R: 0, K: "a", V: "o", T: "k1|"}, {Op: "sync", R: 0}}},
+		{Op: "patch", R: 1, T: "k1", V: `{"b":[1,2]}`},
+	},
+	AtPoint: []string{"snapshots"}, AtEnd: []string{"log", "converge", "snapshots", "nosnapop"}}
